@@ -200,7 +200,7 @@ const fn mul_add(mut ui_a: u32, mut ui_b: u32, mut ui_c: u32, op: MulAddType) ->
             frac64_z &= 0x3FFF_FFFF_FFFF_FFFF;
             if reg_z == 30 {
                 bit_n_plus_one = (exp_z & 0x2) != 0;
-                bits_more = (exp_z & 0x1) != 0;
+                bits_more |= (exp_z & 0x1) != 0;
                 exp_z = 0;
             } else if reg_z == 29 {
                 bit_n_plus_one = (exp_z & 0x1) != 0;
